@@ -759,7 +759,8 @@ def check_append_only(rep, crate, field, file_filter, allowed_fns):
                     target, what = pl, 'assignment'
             elif k == 'MethodCall':
                 adj = node['recv'].get('adj') or []
-                if (any('Mut' in a and 'Borrow' in a for a in adj) or node.get('recv_ty', '').startswith('&mut')):
+                if (any('Mut' in a and 'Borrow' in a for a in adj) or node.get('recv_ty', '').startswith('&mut')) \
+                        and _strip(node['recv']).get('k') != 'MethodCall':     # a temporary (e.g. an iterator over the field) is not the field
                     pl = _place(node['recv'])
                     if pl.endswith('.' + field) and pl.startswith('self'):
                         target, what = pl, node['name']
